@@ -1,6 +1,5 @@
 /- Line-protocol handlers for C14 (occlusion / mismatch filling): model AND spec evaluation. -/
 import PandoraModel.Model.Interp
-import PandoraModel.Model.InterpRepaired
 
 namespace Pandora.Driver.C14
 open Lean (Json)
@@ -38,24 +37,18 @@ def methodOfJson (j : Json) : Except String Method := do
   | "sgm" => pure .sgm
   | s => throw s!"unknown method {s}"
 
-def wfJson (meth : Method) (off : Nat) (a : DMap) : Json :=
+def wfJson (op : RaiseOp) (meth : Method) (off : Nat) (a : DMap) : Json :=
   mkObj [("valid_finite", Json.bool (validFinite a)), ("one_flag", Json.bool (oneFlag a)),
          ("no_stale_fill", Json.bool (noStaleFill meth a)), ("border_clean", Json.bool (borderClean off a)),
-         ("wf", Json.bool (wf meth off a))]
+         ("wf", Json.bool (wf op meth off a))]
 
-def variantOfJson (j : Json) : Option Repaired.Variant :=
+/-- which text of the kernels: "guard+or" (default, the current source), "guard+add", "noguard+or", "noguard+add" -/
+def variantOfJson (j : Json) : Variant :=
   match fieldD j "variant" (Json.str "") with
-  | Json.str "as_coded_r" => some { guard := false, bitops := false }
-  | Json.str "guard" => some { guard := true, bitops := false }
-  | Json.str "bitops" => some { guard := false, bitops := true }
-  | Json.str "guard+bitops" => some { guard := true, bitops := true }
-  | _ => none
-
-/-- the repaired variants (executable only), first pass tabulated once -/
-def runVariant (v : Repaired.Variant) (meth : Method) (off : Nat) (a : DMap) : DMap :=
-  match meth with
-  | .mccnn => maskBorder off (Repaired.lift (Repaired.mismMcPixel v) (materialise (Repaired.lift (Repaired.occlMcPixel v) a)))
-  | .sgm => Repaired.lift (Repaired.occlSgmPixel v) (materialise (Repaired.lift (Repaired.mismSgmPixel v) a))
+  | Json.str "guard+add" => { guard := true, op := .add }
+  | Json.str "noguard+or" => { guard := false, op := .or }
+  | Json.str "noguard+add" => { guard := false, op := .add }
+  | _ => { guard := true, op := .or }
 
 /-- the whole `interpolated_disparity` of the model, the map between the two passes, the situation
     (`trigger`) of every pixel -/
@@ -63,7 +56,8 @@ def run (j : Json) : Except String Json := do
   let meth ← methodOfJson j
   let off ← field j "offset" >>= natOfJson
   let a ← dmapOfJson j "disp" "flag"
-  let mid := materialise (firstPass meth a)
+  let v := variantOfJson j
+  let mid := materialise (firstPass v meth a)
   -- "direct": the function the theorems are about, evaluated as it stands.  "materialised": the first
   -- pass is tabulated once (same rows/cols, same cells inside the image) before the second pass runs;
   -- used for large maps, and compared with "direct" on the small ones by the harness.
@@ -71,13 +65,10 @@ def run (j : Json) : Except String Json := do
     | Json.str "direct" => true
     | Json.str "materialised" => false
     | _ => a.rows * a.cols ≤ 120
-  let out := match variantOfJson j with
-    | some v => if via then Repaired.interpolate v meth off a else runVariant v meth off a
-    | none =>
-      if via then interpolate meth off a else
-      match meth with
-      | .mccnn => maskBorder off (mismMc mid)
-      | .sgm => occlSgm mid
+  let out := if via then interpolate v meth off a else
+    match meth with
+    | .mccnn => maskBorder off (mismMc v mid)
+    | .sgm => occlSgm v mid
   let trig := tab a fun r c => Json.str (triggerAt meth a mid r c)
   let kinds := tab a fun r c => Json.str (match kindOf meth a r c with
     | .none => "" | .occl => "occl" | .mism => "mism" | .mismAsOccl => "mism_as_occl")
@@ -90,23 +81,18 @@ def run (j : Json) : Except String Json := do
     | _, _, _ => Json.bool false
   return mkObj (dmapToJson out ++
     [("sign_tie", gridToJson id ties), ("mid_disp", gridToJson valToJson (tab mid mid.disp)), ("mid_flag", gridToJson natToJson (tab mid mid.flag)),
-     ("trigger", gridToJson id trig), ("kind", gridToJson id kinds), ("wf", wfJson meth off a)])
+     ("trigger", gridToJson id trig), ("kind", gridToJson id kinds), ("wf", wfJson v.op meth off a)])
 
 /-- one numba kernel of the model on its own -/
 def kernel (j : Json) : Except String Json := do
   let k ← field j "kernel" >>= strOfJson
   let a ← dmapOfJson j "disp" "flag"
-  match variantOfJson j, k with
-  | some v, "occlusion_mc_cnn" => return mkObj (dmapToJson (Repaired.lift (Repaired.occlMcPixel v) a))
-  | some v, "mismatch_mc_cnn" => return mkObj (dmapToJson (Repaired.lift (Repaired.mismMcPixel v) a))
-  | some v, "mismatch_sgm" => return mkObj (dmapToJson (Repaired.lift (Repaired.mismSgmPixel v) a))
-  | some v, "occlusion_sgm" => return mkObj (dmapToJson (Repaired.lift (Repaired.occlSgmPixel v) a))
-  | _, _ => pure ()
+  let v := variantOfJson j
   match k with
-  | "occlusion_mc_cnn" => return mkObj (dmapToJson (occlMc a))
-  | "mismatch_mc_cnn" => return mkObj (dmapToJson (mismMc a))
-  | "mismatch_sgm" => return mkObj (dmapToJson (mismSgm a))
-  | "occlusion_sgm" => return mkObj (dmapToJson (occlSgm a))
+  | "occlusion_mc_cnn" => return mkObj (dmapToJson (occlMc v a))
+  | "mismatch_mc_cnn" => return mkObj (dmapToJson (mismMc v a))
+  | "mismatch_sgm" => return mkObj (dmapToJson (mismSgm v a))
+  | "occlusion_sgm" => return mkObj (dmapToJson (occlSgm v a))
   | "find_valid_neighbors" =>
     return mkObj [("neighbors", Json.arr ((tab a fun r c => listToJson valToJson (findValidNeighbors a r c)).map
       (fun row => Json.arr row.toArray)).toArray)]
@@ -119,7 +105,8 @@ def specOp (j : Json) : Except String Json := do
   let off ← field j "offset" >>= natOfJson
   let a ← dmapOfJson j "disp" "flag"
   let b ← dmapOfJson j "out_disp" "out_flag"
-  let mid := materialise (firstPass meth a)
+  let v := variantOfJson j
+  let mid := materialise (firstPass v meth a)
   let mut fails : Array Json := #[]
   let mut hits : List (String × Nat) := []
   for r in List.range a.rows do
@@ -138,7 +125,7 @@ def specOp (j : Json) : Except String Json := do
   let shapeOK := b.rows == a.rows && b.cols == a.cols
   return mkObj [("ok", Json.bool (spec meth off a b)), ("shape_ok", Json.bool shapeOK),
     ("failures", Json.arr fails), ("hits", mkObj (hits.map fun h => (h.1, natToJson h.2))),
-    ("wf", wfJson meth off a), ("no_trigger", Json.bool (noTrigger meth a))]
+    ("wf", wfJson v.op meth off a)]
 
 def constants : Json :=
   mkObj [("PANDORA_MSK_PIXEL_INVALID", natToJson Flags.pixelInvalid),
